@@ -46,6 +46,23 @@ class SeqWorld(World):
                 return not any(n.get("k") == "throw" for n in walk(s.get("then")))
             if s.get("k") == "expr" and "make_shared" in pp(s["e"]) and "m_impl_ptr" in pp(s["e"]):
                 return False
+            if s.get("k") == "expr":
+                # a helper of the class that carries the sanity checks (it can throw) or creates the
+                # implementation is interpreted like the statements it was split from
+                for c in calls(s["e"]):
+                    cal = fn.callee(c)
+                    seen_k = set()
+                    work = [cal] if cal is not None and cal.cls == fn.cls else []
+                    while work:
+                        g = work.pop()
+                        if g is None or g.key in seen_k or g.body is None:
+                            continue
+                        seen_k.add(g.key)
+                        if any(n.get("k") == "throw" for n in walk(g.body)) or \
+                                any("make_shared" in pp(n) and "m_impl_ptr" in pp(n) for n in walk(g.body)
+                                    if n.get("k") == "expr"):
+                            return False
+                        work += [g.callee(c2) for c2 in calls(g.body) if g.callee(c2) is not None and g.callee(c2).cls == fn.cls]
             return True
         return False
 
@@ -121,6 +138,20 @@ def spec(ops, seq):
             "pass_through": not elevation_updated}
 
 
+def make_snapshot_op(it, unit, name, save_graph, save_elevation):
+    """a flow_snapshot operator built by the library's own constructor (whatever its members are)"""
+    SNAP = "fastscapelib::flow_snapshot"
+    ctor = [f for f in unit.fns.values() if f.cls == SNAP and f.is_ctor and len(f.params) == 3]
+    rec = [r for r in unit.records if r["bn"] == SNAP]
+    if not ctor or not rec:
+        return Obj(SNAP, {"m_snapshot_name": name, "m_save_graph": save_graph, "m_save_elevation": save_elevation})
+    o = Obj(SNAP, {})
+    for fld in rec[0]["fields"]:
+        o.fields[fld["n"]] = None
+    it.call_fn(ctor[0], o, [name, save_graph, save_elevation])
+    return o
+
+
 def find_fn(unit, bn, pred):
     c = [f for f in unit.fns.values() if f.bn == bn and pred(f)]
     return c
@@ -142,7 +173,7 @@ def interpret(unit, ops, seq):
                 raise AnalysisBroken("add_operator<%s> not instantiated in %s" % (op, unit.name))
             o = Obj(op, {})
             if snap is not None:
-                o.fields = {"m_snapshot_name": "s%d" % i, "m_save_graph": snap[0], "m_save_elevation": snap[1]}
+                o = make_snapshot_op(it, unit, "s%d" % i, snap[0], snap[1])
             it.call_fn(add[0], so, [o])
         # move into the flow_graph (user-written move constructor) and run the constructor checks
         ctor = [f for f in unit.fns.values() if f.cls == model.FLOW_GRAPH and f.is_ctor
@@ -266,7 +297,7 @@ def run(db, chk):
                        and f.type(f.params[0]["t"]).startswith("std::shared_ptr<%s>" % op)]
                 o = Obj(op, {})
                 if snap is not None:
-                    o.fields = {"m_snapshot_name": "s%d" % i, "m_save_graph": snap[0], "m_save_elevation": snap[1]}
+                    o = make_snapshot_op(it, unit, "s%d" % i, snap[0], snap[1])
                 it.call_fn(add[0], so, [o])
             return so
         accepted = [seq for n in (1, 2, 3) for seq in itertools.product(alpha, repeat=n) if spec(ops, seq)["accept"]]
